@@ -3,6 +3,8 @@ import AfkakProofs.Wire.Requests
 import AfkakProofs.Wire.ProduceReq
 import AfkakProofs.Wire.GroupPayloads
 import AfkakProofs.Wire.Glue
+import AfkakProofs.Wire.TotalProduce
+import AfkakProofs.Wire.TotalGroup
 import AfkakProps.Open.C04
 /-!
 # C04 — every request on the wire conforms to the Kafka protocol grammar
@@ -505,6 +507,255 @@ example : sendFetchVersions .legacy [] = some (.ok (.legacy, 0, 0)) := by decide
     key: here the table lists ApiVersions first and Produce last. -/
 example : lookupVersion 0 (.table [⟨18, 0, 3⟩, ⟨1, 0, 11⟩, ⟨3, 0, 9⟩, ⟨0, 0, 8⟩]) = some 8 := by decide
 
+/-- **The guard refuses exactly the lists that would lose a payload** (finding F18). -/
+theorem C04_guard_exact : C04_guard_exact_stmt := by
+  intro α topic partition xs
+  exact payloadCount_eq_iff topic partition xs
+
+/-- **No request is written from which a payload is missing**: all five broker-aware encoders raise
+    `ValueError` on a list that names a (topic, partition) twice. -/
+theorem C04_duplicate_refused : C04_duplicate_refused_stmt := by
+  refine ⟨?_, ?_, ?_, ?_, ?_⟩
+  · intro ext cid corr ps acks timeout ver h
+    have hg := mt (payloadCount_eq_iff ProduceReq.topic ProduceReq.partition ps).mp h
+    unfold encodeProduceRequest
+    simp only
+    rw [if_pos hg]
+  · intro cid corr ps wait minb ver h
+    have hg := mt (payloadCount_eq_iff FetchReq.topic FetchReq.partition ps).mp h
+    unfold encodeFetchRequest
+    simp only
+    rw [if_pos hg]
+  · intro cid corr ps h
+    have hg := mt (payloadCount_eq_iff OffsetReq.topic OffsetReq.partition ps).mp h
+    unfold encodeOffsetRequest
+    simp only
+    rw [if_pos hg]
+  · intro cid corr g ps h
+    have hg := mt (payloadCount_eq_iff OffsetFetchReq.topic OffsetFetchReq.partition ps).mp h
+    unfold encodeOffsetFetchRequest
+    simp only
+    rw [if_pos hg]
+  · intro cid corr g gen c ps h
+    have hg := mt (payloadCount_eq_iff OffsetCommitReq.topic OffsetCommitReq.partition ps).mp h
+    unfold encodeOffsetCommitRequest
+    simp only [Option.isNone_some, Bool.false_eq_true, if_false]
+    rw [if_pos hg]
+
+
+/-- **No spurious refusal** (the other half of conformance): on every argument list the grammar can
+    carry the encoder DOES write a frame, and the monitor's verdict on it is `ok`. -/
+theorem C04_produce_total : C04_produce_total_stmt := by
+  intro ext cid corr ps acks timeout ver v l hv hk hmag hnd hvalid hascii
+  obtain ⟨frame, h⟩ := produce_total hv hk hnd hvalid hascii
+  refine ⟨frame, h, ?_⟩
+  unfold Monitor.C04.produce
+  simp only [hv, hk]
+  rw [if_neg (by simpa using hmag)]
+  exact conforms_ok_of_enc _ _ _ hvalid (produce_bytes h hv hk)
+
+theorem C04_fetch_total : C04_fetch_total_stmt := by
+  intro cid corr ps wait minb ver v l hv hk hnd hvalid hascii
+  obtain ⟨frame, h⟩ := fetch_total hv hk hnd hvalid hascii
+  refine ⟨frame, h, ?_⟩
+  unfold Monitor.C04.fetch
+  simp only [hv, hk]
+  exact conforms_ok_of_enc _ _ _ hvalid (fetch_bytes h hv hk)
+
+theorem C04_list_offsets_total : C04_list_offsets_total_stmt := by
+  intro cid corr ps l hk hnd hvalid hascii
+  obtain ⟨frame, h⟩ := listOffsets_total hk hnd hvalid hascii
+  refine ⟨frame, h, ?_⟩
+  unfold Monitor.C04.listOffsets
+  simp only [hk, Option.map_some]
+  exact conforms_ok_of_enc _ _ _ hvalid (listOffsets_bytes h hk)
+
+theorem C04_offset_fetch_total : C04_offset_fetch_total_stmt := by
+  intro cid g corr ps l hk hnd hvalid hg hascii
+  obtain ⟨frame, h⟩ := offsetFetch_total hk hnd hvalid hg hascii
+  refine ⟨frame, h, ?_⟩
+  unfold Monitor.C04.offsetFetch
+  simp only [hk]
+  exact conforms_ok_of_enc _ _ _ hvalid (offsetFetch_bytes h hk)
+
+theorem C04_offset_commit_total : C04_offset_commit_total_stmt := by
+  intro cid g c corr gen ps l hk hnd hvalid hg hc hascii
+  obtain ⟨frame, h⟩ := offsetCommit_total hk hnd hvalid hg hc hascii
+  refine ⟨frame, h, ?_⟩
+  unfold Monitor.C04.offsetCommit
+  simp only [hk]
+  exact conforms_ok_of_enc _ _ _ hvalid (offsetCommit_bytes h hk)
+
+theorem C04_metadata_total : C04_metadata_total_stmt := by
+  intro cid corr topics ts ht hvalid hascii
+  obtain ⟨frame, h⟩ := metadata_total ht hvalid hascii
+  refine ⟨frame, h, ?_⟩
+  unfold Monitor.C04.metadata
+  simp only [ht, Option.map_some]
+  exact conforms_ok_of_enc _ _ _ hvalid (metadata_bytes h ht)
+
+theorem C04_group_requests_total : C04_group_requests_total_stmt := by
+  refine ⟨?_, ?_, ?_, ?_⟩
+  · intro cid g corr hvalid hg
+    obtain ⟨frame, h⟩ := findCoordinator_total hvalid hg
+    refine ⟨frame, h, ?_⟩
+    unfold Monitor.C04.findCoordinator
+    simp only [Option.map_some]
+    exact conforms_ok_of_enc _ _ _ hvalid (findCoordinator_bytes h)
+  · intro cid g m corr gen hvalid
+    obtain ⟨frame, h⟩ := heartbeat_total hvalid
+    refine ⟨frame, h, ?_⟩
+    unfold Monitor.C04.heartbeat
+    exact conforms_ok_of_enc _ _ _ hvalid (heartbeat_bytes h)
+  · intro cid g m corr hvalid
+    obtain ⟨frame, h⟩ := leaveGroup_total hvalid
+    refine ⟨frame, h, ?_⟩
+    unfold Monitor.C04.leaveGroup
+    exact conforms_ok_of_enc _ _ _ hvalid (leaveGroup_bytes h)
+  · intro cid corr hvalid
+    obtain ⟨frame, h⟩ := apiVersions_total hvalid
+    refine ⟨frame, h, ?_⟩
+    unfold Monitor.C04.apiVersions
+    simp only [and_self, if_true]
+    exact conforms_ok_of_enc _ _ _ hvalid (apiVersions_bytes h)
+
+
+theorem C04_join_sync_total : C04_join_sync_total_stmt := by
+  refine ⟨?_, ?_⟩
+  · intro cid corr p g m t ps hg hm ht hps hvalid hascii
+    obtain ⟨frame, h⟩ := joinGroup_total hg hm ht hps hvalid hascii
+    refine ⟨frame, h, ?_⟩
+    unfold Monitor.C04.joinGroup
+    simp only [hg, hm, ht, hps]
+    exact conforms_ok_of_enc _ _ _ hvalid (joinGroup_bytes h hg hm ht hps)
+  · intro cid g m corr gen asg ps hps hvalid
+    obtain ⟨frame, h⟩ := syncGroup_total hps hvalid
+    refine ⟨frame, h, ?_⟩
+    unfold Monitor.C04.syncGroup
+    simp only [hps]
+    exact conforms_ok_of_enc _ _ _ hvalid (syncGroup_bytes h hps)
+
+theorem C04_consumer_protocol_total : C04_consumer_protocol_total_stmt := by
+  refine ⟨?_, ?_⟩
+  · intro ver subs ud ts ht hvalid
+    obtain ⟨data, h⟩ := subscription_total ht hvalid
+    refine ⟨data, h, ?_⟩
+    unfold Monitor.C04.subscription
+    simp only [ht, Option.map_some]
+    exact conforms_ok_of_enc _ _ _ hvalid (subscription_bytes h ht)
+  · intro ver asg ud a ha hvalid hascii
+    obtain ⟨data, h⟩ := assignment_total ha hvalid hascii
+    refine ⟨data, h, ?_⟩
+    unfold Monitor.C04.assignment
+    simp only [ha, Option.map_some]
+    exact conforms_ok_of_enc _ _ _ hvalid (assignment_bytes h ha)
+
+
+theorem asciiTopics_mem {β : Type} {l : List (Bytes × β)} (h : asciiTopics l = true) : ∀ e ∈ l, isAscii e.1 = true :=
+  List.all_eq_true.mp h
+
+theorem C04_must_encode : C04_must_encode_stmt := by
+  refine ⟨?_, ?_, ?_, ?_, ?_, ?_, ?_, ?_, ?_, ?_, ?_, ?_, ?_, ?_⟩
+  · intro ext cid corr ps acks timeout ver h
+    unfold mustProduce at h
+    split at h
+    · rename_i v l hv hk
+      simp only [Bool.and_eq_true, Bool.not_eq_true', decide_eq_true_eq] at h
+      exact C04_produce_total ext cid corr ps acks timeout ver v l hv hk
+        (by intro hh; have := h.1.1.1; rw [hh.2, decide_eq_true hh.1] at this; cases this) h.1.1.2 h.1.2 (asciiTopics_mem h.2)
+    · cases h
+  · intro cid corr ps wait minb ver h
+    unfold mustFetch at h
+    split at h
+    · rename_i v l hv hk
+      simp only [Bool.and_eq_true, decide_eq_true_eq] at h
+      exact C04_fetch_total cid corr ps wait minb ver v l hv hk h.1.1 h.1.2 (asciiTopics_mem h.2)
+    · cases h
+  · intro cid corr ps h
+    unfold mustListOffsets at h
+    split at h
+    · rename_i l hk
+      simp only [Bool.and_eq_true, decide_eq_true_eq] at h
+      exact C04_list_offsets_total cid corr ps l hk h.1.1 h.1.2 (asciiTopics_mem h.2)
+    · cases h
+  · intro cid corr g ps h
+    unfold mustOffsetFetch at h
+    split at h
+    · rename_i g' l hk
+      simp only [Bool.and_eq_true, decide_eq_true_eq] at h
+      exact C04_offset_fetch_total cid g' corr ps l hk h.1.1.1 h.1.1.2 h.1.2 (asciiTopics_mem h.2)
+    · cases h
+  · intro cid corr g gen c ps h
+    unfold mustOffsetCommit at h
+    split at h
+    · rename_i g' c' l hk
+      simp only [Bool.and_eq_true, decide_eq_true_eq] at h
+      exact C04_offset_commit_total cid g' c' corr gen ps l hk h.1.1.1.1 h.1.1.1.2 h.1.1.2 h.1.2 (asciiTopics_mem h.2)
+    · cases h
+  · intro cid corr topics h
+    unfold mustMetadata at h
+    split at h
+    · rename_i ts ht
+      simp only [Bool.and_eq_true] at h
+      exact C04_metadata_total cid corr topics ts ht h.1 (List.all_eq_true.mp h.2)
+    · cases h
+  · intro cid corr g h
+    unfold mustFindCoordinator at h
+    split at h
+    · rename_i g'
+      simp only [Bool.and_eq_true] at h
+      exact C04_group_requests_total.1 cid g' corr h.1 h.2
+    · cases h
+  · intro cid corr p h
+    unfold mustJoinGroup at h
+    split at h
+    · rename_i g m t ps hg hm ht hps
+      simp only [Bool.and_eq_true] at h
+      exact C04_join_sync_total.1 cid corr p g m t ps hg hm ht hps h.1 (List.all_eq_true.mp h.2)
+    · cases h
+  · intro cid corr g gen m asg h
+    unfold mustSyncGroup at h
+    split at h
+    · rename_i g' m' a hps
+      exact C04_join_sync_total.2 cid g' m' corr gen asg a hps h
+    · cases h
+  · intro cid corr g gen m h
+    unfold mustHeartbeat at h
+    split at h
+    · rename_i g' m'
+      exact C04_group_requests_total.2.1 cid g' m' corr gen h
+    · cases h
+  · intro cid corr g m h
+    unfold mustLeaveGroup at h
+    split at h
+    · rename_i g' m'
+      exact C04_group_requests_total.2.2.1 cid g' m' corr h
+    · cases h
+  · intro cid corr key ver h
+    unfold mustApiVersions at h
+    simp only [Bool.and_eq_true, decide_eq_true_eq] at h
+    obtain ⟨⟨rfl, rfl⟩, hv⟩ := h
+    exact C04_group_requests_total.2.2.2 cid corr hv
+  · intro ver subs ud h
+    unfold mustSubscription at h
+    split at h
+    · rename_i ts ht
+      exact C04_consumer_protocol_total.1 ver subs ud ts ht h
+    · cases h
+  · intro ver asg ud h
+    unfold mustAssignment at h
+    split at h
+    · rename_i a ha
+      simp only [Bool.and_eq_true] at h
+      exact C04_consumer_protocol_total.2 ver asg ud a ha h.1 (List.all_eq_true.mp h.2)
+    · cases h
+
+
+/-- the hypotheses of the totality statements are satisfiable: a two-partition fetch of topic "t" -/
+example : ∃ frame, encodeFetchRequest [99] 7 [⟨some [116], 0, 5, 1024⟩, ⟨some [116], 1, 6, 1024⟩] 100 1 2 = .ok frame
+    ∧ Monitor.C04.fetch [99] 7 [⟨some [116], 0, 5, 1024⟩, ⟨some [116], 1, 6, 1024⟩] 100 1 2 frame = .ok :=
+  C04_fetch_total [99] 7 _ 100 1 2 2 [([116], (0, (5, 1024))), ([116], (1, (6, 1024)))] rfl rfl (by decide) (by decide) (by decide)
+
 end Afkak.Props.C04
 
 /- OBLIGATIONS
@@ -531,6 +782,18 @@ C04_fallback_on_error_code
 C04_glue_produce
 C04_glue_fetch
 C04_discovery_outcomes
+C04_guard_exact
+C04_duplicate_refused
+C04_produce_total
+C04_fetch_total
+C04_list_offsets_total
+C04_offset_fetch_total
+C04_offset_commit_total
+C04_metadata_total
+C04_group_requests_total
+C04_join_sync_total
+C04_consumer_protocol_total
+C04_must_encode
 -/
 /- OPEN_STATEMENTS
 -/
